@@ -205,6 +205,11 @@ def view(p, name):
             return "TR (" + " ".join(names) + ") " + wire(ast.unparse(mod))
         if name == "interp":
             return "T " + wire(ast.unparse(Interpreter(p).to_ast()))
+        if name == "interp_cli":
+            # what the CLI does for the 2nd member of a stack: its own variable numbering and result name.
+            # Not a question the model answers (compared only with a brand-new object); it is in the
+            # histories because it must not change any LATER answer
+            return "T " + wire(ast.unparse(Interpreter(p, first_variable_id=3, result_variable="result1").to_ast()))
         if name == "len":
             return "N %d" % len(p)
         if name == "dumps":
